@@ -216,3 +216,25 @@ Theorem C06_stable_parallel_mergesort_is_stable_sort_closed :
     res_array (pms ltb lsort ssort (partition_c08 ltb) (mmerge_c05 ltb true) d sampling os p input) = stable_sort ltb input.
 Proof. exact @pms_c08_c05_stable. Qed.
 Print Assumptions C06_stable_parallel_mergesort_is_stable_sort_closed.
+
+(** ... and the same two theorems with the loser trees of the merge taken from the C09 model (C05/C09Model.v,
+    C05/C09Instance.v: guarded and unguarded tree classes, pointer- or copy-based [ptr], default key [dk]) instead of
+    the reference tournament.  [mmerge_c09] runs C05's [mwm_base] over C09's trees whenever there are at most 2^30
+    sequences (the domain of C09's model, Source = uint32_t), i.e. always for a sort with one sequence per thread. *)
+Theorem C06_parallel_mergesort_sorted_permutation_closed_c09 :
+  forall (A : Type) (ltb : A -> A -> bool), SWO ltb ->
+  forall (dk : A) lsort ssort (d : A), sorts ltb lsort -> sorts ltb ssort ->
+  forall (ptr stable sampling : bool) (os p : nat) (input : list A), 1 <= os -> 1 <= p ->
+    let r := pms ltb lsort ssort (partition_c08 ltb) (mmerge_c09 ltb dk ptr stable) d sampling os p input in
+    Permutation (res_array r) input /\ SS ltb (res_array r) /\ res_ok r = true.
+Proof. exact @pms_c08_c09_sorted_permutation. Qed.
+Print Assumptions C06_parallel_mergesort_sorted_permutation_closed_c09.
+
+Theorem C06_stable_parallel_mergesort_is_stable_sort_closed_c09 :
+  forall (A : Type) (ltb : A -> A -> bool), SWO ltb ->
+  forall (dk : A) lsort ssort (d : A), sorts ltb lsort -> sorts ltb ssort ->
+  forall (ptr sampling : bool) (os p : nat) (input : list A), 1 <= os -> 1 <= p ->
+    (forall l, lsort l = stable_sort ltb l) ->
+    res_array (pms ltb lsort ssort (partition_c08 ltb) (mmerge_c09 ltb dk ptr true) d sampling os p input) = stable_sort ltb input.
+Proof. exact @pms_c08_c09_stable. Qed.
+Print Assumptions C06_stable_parallel_mergesort_is_stable_sort_closed_c09.
